@@ -122,10 +122,10 @@ def gen_cases(ctx, sd):
     rnd = random.Random(ctx.seed)
     for fam, cases in (("A", ra), ("B", rb)):
         cases.sort(key=lambda c: json.dumps(c, sort_keys=True))
-        # the real DeleteSeries is run for every atom and a seeded sample of the compound conditions (quick) / all (thorough)
+        # the real DeleteSeries is run for every atom and a seeded sample of the compound conditions (260 quick / 3000 thorough; family B: 50 / all)
         idx = list(range(len(cases)))
         rnd.shuffle(idx)
-        budget = ctx.pick({"A": 260, "B": 50}[fam], 10 ** 9)
+        budget = ctx.pick({"A": 260, "B": 50}[fam], {"A": 3000, "B": 10 ** 9}[fam])
         chosen = set(idx[:budget])
         for i, c in enumerate(cases):
             c["family"] = fam
@@ -139,20 +139,9 @@ def run(ctx):
     sd = ctx.spec_dir("epoch")
     rp = json.load(open(ctx.replay))["replay"] if ctx.replay else None
     kind = rp.get("test") if rp else None
+    stats = {}
 
-    behs, cases = [], []
-    if not ctx.replay:
-        # 1. exhaustive model checking + generation (all JVMs side by side)
-        r = parallel([lambda: exhaustive(ctx, sd), lambda: gen_behaviours(ctx, sd), lambda: gen_cases(ctx, sd)])
-        behs, cases = r[1], r[2]
-    elif kind == "REPLAY":
-        behs = [rp["behaviour"]]
-    elif kind == "MATCH":
-        c = rp["case"]
-        c["real"] = True
-        cases = [c]
-
-    # 2. behaviours on the real epochTracker/guard + X03d cases on the real guard and the real DeleteSeries
+    # ---- behaviours on the real epochTracker/guard + X03d cases on the real guard and the real DeleteSeries
     def run_main(behs, cases, label):
         tests, env = [], {}
         if behs:
@@ -162,14 +151,17 @@ def run(ctx):
             env["VERIF_IN_MATCH"] = ctx.write_json("cases-%s.json" % label, {"cases": cases})
             env["VERIF_MATCHES"] = os.path.join(ctx.scratch, "matches-%s.json" % label)
             tests += ["GuardMatch", "GuardSelection"]
-        return ctx.go_test(PKG, FILES, "^TestVerif(%s)$" % "|".join(tests), env=env, timeout=ctx.pick(900, 3000), label=label)
+        import copy
+        c2 = copy.copy(ctx)             # own scratch: go_test derives file names from the directory listing
+        c2.scratch = os.path.join(ctx.scratch, "go-" + label)
+        os.makedirs(c2.scratch, exist_ok=True)
+        return c2.go_test(PKG, FILES, "^TestVerif(%s)$" % "|".join(tests), env=env, timeout=ctx.pick(900, 3000), label=label)
 
     def confirm(r):
         if r.get("test") == "REPLAY":
             recs, out, rc = run_main([r["behaviour"]], [], "confirm")
         else:
-            c = dict(r["case"], real=True)
-            recs, out, rc = run_main([], [c], "confirm")
+            recs, out, rc = run_main([], [dict(r["case"], real=True)], "confirm")
         return any(x.get("k") == "mismatch" and not x["sig"].startswith("note:") for x in recs)
 
     def split(recs, test, first):
@@ -189,8 +181,9 @@ def run(ctx):
                 keep.append(x)
         return keep
 
-    stats = {}
-    if behs or cases:
+    def run_and_digest(behs, cases):
+        if not behs and not cases:
+            return
         recs, out, rc = run_main(behs, cases, "main")
         if behs:
             d = ctx.process(split(recs, "TestVerifEpochReplay", True), out, rc, "TestVerifEpochReplay", confirm)
@@ -199,37 +192,66 @@ def run(ctx):
         if cases:
             d = ctx.process(split(recs, "TestVerifGuardMatch", not behs), out, rc, "TestVerifGuardMatch", confirm)
             stats["match"] = d
-            d2 = ctx.process(split(recs, "TestVerifGuardSelection", False), out, rc, "TestVerifGuardSelection", None)
-            stats["selection"] = d2
+            stats["selection"] = ctx.process(split(recs, "TestVerifGuardSelection", False), out, rc, "TestVerifGuardSelection", None)
             ctx.cov["traces_validated_against_impl"] += d.get("cases", 0)
 
-    # 3. store-level race under the race detector (inmem and tsi1)
-    if not ctx.replay or kind == "RACE":
-        idxs = ["inmem", "tsi1"]
+    def main_part():
+        r = parallel([lambda: gen_behaviours(ctx, sd), lambda: gen_cases(ctx, sd)])
+        run_and_digest(r[0], r[1])
+
+    # ---- store-level race under the race detector, inmem and tsi1 (runs beside everything else)
+    def race(index):
+        import copy
+        c2 = copy.copy(ctx)
+        c2.scratch = os.path.join(ctx.scratch, "race-" + index)
+        os.makedirs(c2.scratch, exist_ok=True)
+        env = {"VERIF_INDEX": index, "VERIF_ROUNDS": ctx.pick(30, 300)}
         if kind == "RACE":
-            idxs = [rp.get("index", "inmem")]
-        def race(index):
-            import copy
-            c2 = copy.copy(ctx)
-            c2.scratch = os.path.join(ctx.scratch, "race-" + index)
-            os.makedirs(c2.scratch, exist_ok=True)
-            env = {"VERIF_INDEX": index, "VERIF_ROUNDS": ctx.pick(60, 500)}
-            if kind == "RACE":
+            if rp.get("round"):
                 env["VERIF_IN_RACE"] = c2.write_json("round.json", {"round": rp["round"]})
-                env["VERIF_ROUNDS"] = 300
-            return c2.go_test(PKG, FILES, "^TestVerifEpochStoreRace$", env=env, timeout=ctx.pick(900, 3000), race=True, label="race-" + index)
+            env["VERIF_ROUNDS"] = 200
+            if rp.get("force_pred"):
+                env["VERIF_FORCE_PRED"] = rp["force_pred"]
+        return c2.go_test(PKG, FILES, "^TestVerifEpochStoreRace$", env=env, timeout=ctx.pick(900, 3000), race=True, label="race-" + index)
+
+    def races():
+        idxs = [rp.get("index", "inmem")] if kind == "RACE" else ["inmem", "tsi1"]
         res = parallel([lambda i=i: race(i) for i in idxs])
         for index, (recs, out, rc) in zip(idxs, res):
-            if "WARNING: DATA RACE" in out:
-                m = re.search(r"WARNING: DATA RACE.*?\n\s+(\S+)\(", out, re.S)
-                fn = m.group(1) if m else "?"
-                if "/tsdb." in fn or "tsdb.(" in fn:
-                    ctx.report_mismatch("race:" + fn.split("/")[-1], "race detector report in the store race driver (index %s):\n%s" % (index, out[out.find("WARNING: DATA RACE"):][:1500]),
-                                        {"test": "RACE", "index": index, "round": None})
+            raced = False
+            for blk in out.split("WARNING: DATA RACE")[1:6]:
+                blk = blk.split("==================")[0]
+                # the two conflicting accesses: first frame below "Write at / Read at / Previous write at / Previous read at"
+                tops = re.findall(r"(?:[Ww]rite|[Rr]ead) at 0x[0-9a-f]+ by [^\n]*\n\s+(\S+)\(", blk)
+                tops = sorted({t.split("/")[-1] for t in tops[:2]})
+                if not tops or not any("tsdb" in t or "tsi1" in t or "inmem" in t or "tsm1" in t for t in tops):
                     continue
+                raced = True
+                # history class: does a write take part, or are these two deletes overlapping on the shard?
+                if "WritePoints" in blk or "WriteToShard" in blk:
+                    cls = "write:"
+                elif "DeleteSeriesRange" in blk or "DeleteMeasurement" in blk:
+                    cls = "delete-delete:"
+                else:
+                    cls = ""
+                ctx.report_mismatch("race:" + cls + "+".join(tops), "race detector report in the store race driver (index %s):\nWARNING: DATA RACE%s" % (index, blk[:2500]),
+                                    {"test": "RACE", "index": index, "round": None})
+            if raced and rc != 0 and any(x.get("k") == "done" for x in recs):
+                rc = 0          # the detector's report is what made the test binary fail; the driver itself completed
             d = ctx.process(recs, out, rc, "TestVerifEpochStoreRace", None)
             stats["race-" + index] = d
             ctx.cov["traces_validated_against_impl"] += d.get("rounds", 0)
+
+    if not ctx.replay:
+        parallel([lambda: exhaustive(ctx, sd), main_part, races])
+    elif kind == "REPLAY":
+        run_and_digest([rp["behaviour"]], [])
+    elif kind == "MATCH":
+        run_and_digest([], [dict(rp["case"], real=True)])
+    elif kind == "RACE":
+        races()
+    else:
+        raise Infra("unknown replay kind %r" % kind)
 
     extra = {
         "behaviours_replayed": stats.get("replay", {}).get("behaviours", 0),
@@ -242,5 +264,5 @@ def run(ctx):
     return ctx.finish("model_checking", extra, assumptions=[
         "Epoch.tla: one write per writer, one delete per deleter, 2-3 of each, batches/selections over 3 keys; engine write and engine delete are one step per key",
         "replay covers the call sequences of WriteToShardWithContext and DeleteSeries/DeleteMeasurement copied into the harness goroutines; the store's own glue is exercised by the store-level race driver only (real scheduling, no gates)",
-        "GuardMatch.tla: tag predicates over two tag keys, measurement names, five regular expressions, up to one AND/OR (two in the thorough tier); missing tag = empty string as in the index",
+        "GuardMatch.tla: tag predicates over two tag keys, measurement names, five regular expressions, equality of two tags, up to one AND/OR (two in the thorough tier); missing tag = empty string as in the index (confirmed per case by the real DeleteSeries)",
     ])
